@@ -31,7 +31,7 @@ const PORTS: [u8; 3] = [0, 1, 2]; // absent, default explicit, non-default
 const PATHS: [&str; 4] = ["", "/", "/a/b/c.txt", "/p%20q/%C3%BC/x%2Fy"];
 const QUERIES: [&str; 2] = ["", "?k=v&x=%26"];
 const FRAGMENTS: [&str; 2] = ["", "#frag/ment?x"];
-const USERINFO: [&str; 3] = ["", "user@", "user:p%40ss@"];
+const USERINFO: [&str; 5] = ["", "user@", "user:p%40ss@", ":tok%40en@", "user:@"];
 const PROXIES: [&str; 3] = ["", "http", "https"];
 const PROXY_USERINFO: [&str; 2] = ["", "puser:ppass@"];
 const PROXY_PORT: [&str; 2] = ["", ":3128"];
@@ -45,7 +45,8 @@ fn gens(tier: Tier) -> Vec<Gen> {
     vec![
         // plain rows are cheap: whole matrix in both tiers; tunnel rows (TLS handshakes) are strided in quick
         Gen { name: "matrix", count: matrix(), exhaustive: true, run: run_matrix },
-        Gen { name: "tunnel-rows", count: tier.pick(400, 4_608), exhaustive: tier == Tier::Thorough, run: run_tunnel_rows },
+        Gen { name: "redirected", count: (REDIR_URLS.len() * REDIR_URLS.len() * 3) as u64, exhaustive: true, run: run_redirected },
+        Gen { name: "tunnel-rows", count: tier.pick(400, (matrix() / 3) as u64), exhaustive: tier == Tier::Thorough, run: run_tunnel_rows },
     ]
 }
 
@@ -69,7 +70,7 @@ fn decode(index: u64) -> Config {
     let pport = PROXY_PORT[take(2)];
     let puser = PROXY_USERINFO[take(2)];
     let proxy_kind = PROXIES[take(3)];
-    let userinfo = USERINFO[take(3)];
+    let userinfo = USERINFO[take(USERINFO.len())];
     let frag = FRAGMENTS[take(2)];
     let query = QUERIES[take(2)];
     let path = PATHS[take(4)];
@@ -286,4 +287,64 @@ fn run_tunnel_rows(ctx: &mut Ctx, _rng: &mut Rng, index: u64) {
     ctx.count("tls_handshakes_completed", 1);
     let d = world.dial(0);
     judge(ctx, &cfg, &exp, &d.req, &server.request, midx);
+}
+
+// ---- the second request of a redirect is held to the same rules ------------------------------------
+
+const REDIR_URLS: [&str; 8] = [
+    "http://origin.test/a", "http://origin.test:8080/a", "http://origin.test:8081/b?x=1", "https://origin.test/a", "https://origin.test:8443/a", "http://other.test/a", "http://192.0.2.7:8080/a",
+    "http://[2001:db8::7]:8080/a",
+];
+
+fn run_redirected(ctx: &mut Ctx, _rng: &mut Rng, index: u64) {
+    let n = REDIR_URLS.len();
+    let from = REDIR_URLS[index as usize % n];
+    let to = REDIR_URLS[(index as usize / n) % n];
+    let proxy_kind = (index as usize / (n * n)) % 3; // 0 none, 1 http proxy for http URLs, 2 same + no-proxy for the target host
+    let to_url = Url::parse(to).unwrap();
+    let mut ps = ProxySettings::builder();
+    if proxy_kind > 0 {
+        ps = ps.http_proxy(Url::parse("http://proxy.test:3128").unwrap());
+    }
+    if proxy_kind == 2 {
+        ps = ps.add_no_proxy_host(to_url.host_str().unwrap());
+    }
+    let to2 = to.to_owned();
+    let world = World::install(move |_, idx, _| {
+        let resp = if idx == 0 { format!("HTTP/1.1 307 Temporary Redirect\r\nLocation: {to2}\r\nContent-Length: 0\r\n\r\n").into_bytes() } else { OK_RESPONSE.to_vec() };
+        Answer::Script(vec![Step::Data(resp)], WriteFaults::default())
+    });
+    let res = attohttpc::get(from).proxy_settings(ps.build()).send();
+    if from == to {
+        ctx.gray();
+        return;
+    }
+    if res.is_err() || world.dial_count() != 2 {
+        ctx.violation("redirected:send-failed", format!("{res:?}; dials={} from={from} to={to}", world.dial_count()));
+        return;
+    }
+    // judge the SECOND request with the reference for the target URL
+    let https = to_url.scheme() == "https";
+    let port_kind = match to_url.port() {
+        None => 0,
+        Some(_) => 2,
+    };
+    let host: &'static str = HOSTS.iter().copied().find(|h| to.contains(h)).unwrap_or(if to.contains("other.test") { "other.test" } else { "origin.test" });
+    let via_proxy = proxy_kind == 1 && !https;
+    let cfg = Config { url: to.to_owned(), proxy: if via_proxy { Some("http://proxy.test:3128".to_owned()) } else { None }, caller_host: "", https, host, port_kind };
+    let mut exp = expected(&cfg);
+    if port_kind == 2 {
+        // explicit ports in this list are never the default and differ from 8443
+        let p = to_url.port().unwrap();
+        let h = to_url.host_str().unwrap().to_owned();
+        exp.host_field = format!("{h}:{p}");
+        if !via_proxy {
+            exp.dial_port = p;
+        } else {
+            exp.target = format!("http://{h}:{p}{}", &exp.target[exp.target.find("/a").or(exp.target.find("/b")).unwrap_or(0)..]);
+        }
+    }
+    let d = world.dial(1);
+    ctx.count("redirected_second_requests", 1);
+    judge(ctx, &cfg, &exp, &d.req, &d.trace().written, 1_000_000 + index);
 }
